@@ -162,6 +162,7 @@ _NL: /(\r?\n[\t ]*)+/
 
 # instances that share a cache location: the options below change the result on these grammars, so a parser restored for the wrong configuration is visible
 CACHE_GRAMMARS = ['start: (A | B)+\nA.2: /a/\nB: /a+/\n%ignore " "\n', 'start: [A] "b" A\nA: "a"\n%ignore " "\n', 'start: x+\n?x: "(" A ")" | A\nA: "a"\n%ignore " "\n']
+SIBLING_VARIANTS = [{'keep_all_tokens': True}, {'keep_all_tokens': True}, {'maybe_placeholders': False}, {'priority': 'invert'}, {'priority': None}]
 CACHE_VARIANTS = [{}, {'priority': None}, {'priority': 'invert'}, {'keep_all_tokens': True}, {'maybe_placeholders': False}, {'priority': 'normal'}, {'lexer': 'basic'}, {'propagate_positions': True}]
 
 
@@ -259,8 +260,20 @@ def _history_(g, seed, indent):
     if engine == 'earley':
         ops = ['parse', 'parse'] + (['lex'] if kw['lexer'] == 'basic' else [])
     hist, failures, keep = [], [], []
+    # results of the instance that was built FIRST from this grammar text, before any sibling exists in the process: the reference for instances built later
+    pristine = None
+    if not indent and not cached:
+        with guarded(20):
+            T0 = [text() for _ in range(3)]
+            pristine = [call(shared, 'parse', t_, None) for t_ in T0]
     with guarded(40):
         for step in range(rng.randint(3, 9)):
+            if pristine is not None and rng.random() < 0.3:
+                # a sibling: another instance from the very same grammar text under other options (no cache involved)
+                try:
+                    Lark(g, parser=engine, **dict(kw, **rng.choice(SIBLING_VARIANTS)))
+                except (GrammarError, LarkError):
+                    pass
             op = rng.choice(ops); s = text(); k = rng.randint(0, 3) if rng.random() < 0.4 and op != 'parse' else None
             if not indent and not cached and rng.random() < 0.15 and hasattr(shared, 'grammar'):
                 # another instance compiled from the very same Grammar object, under another priority mode
@@ -289,6 +302,14 @@ def _history_(g, seed, indent):
                 if got2 != want:
                     failures.append({'call_index': step, 'call': [op, s, k], 'on_new_instance_through_shared_cache': got2, 'on_fresh_instance': want, 'other_instance_options': other, 'cache': 'one file shared by the instances'})
                     break
+    if pristine is not None and not failures:
+        with guarded(20):
+            later = mk()
+            got_ = [call(later, 'parse', t_, None) for t_ in T0]
+        if got_ != pristine:
+            k_ = [i for i in range(len(T0)) if got_[i] != pristine[i]][0]
+            failures.append({'call_index': 'end', 'call': ['parse', T0[k_], None], 'on_instance_built_after_siblings': got_[k_], 'on_first_instance_of_this_grammar_text': pristine[k_],
+                             'history_note': 'instances of the same grammar text with other options (keep_all_tokens / maybe_placeholders / priority) were created in between'})
     return {'grammar': INDENT_G if indent else g, 'options': kw, 'indenter': indent, 'history': hist, 'failures': failures, 'cached': cached}
 
 
@@ -373,4 +394,5 @@ def run(ctx, res):
         if rec.get('cached'): res.count('histories_with_shared_cache_location')
         for f in rec['failures']:
             res.violation('an instance is affected by another instance created in the process (through a shared cache location)' if 'on_new_instance_through_shared_cache' in f or rec.get('cached')
+                          else 'an instance is affected by other instances created earlier in the process from the same grammar text' if 'on_instance_built_after_siblings' in f
                           else 'the outcome of a call depends on earlier calls on the same instance', {'grammar': rec['grammar'], 'options': rec['options'], 'indenter': rec['indenter'], 'history': rec['history'], 'detail': f})
